@@ -52,6 +52,11 @@ def corpus(q, rnd):
         recs = [c for c in r.records if c["st"] in langcheck.ORACLE]
         rnd.shuffle(recs)
         progs += [nsast.render(c["prog"])[0] for c in recs[:30 if q else 300]]
+    # call cycles (each function calls the next, the last one the first): the summaries' fixpoint needs several sweeps,
+    # so the work done INSIDE the analysis and the bound computed before it are exercised against each other
+    for k in (4, 9, 16):
+        body = "".join("do c%d(n) start\n if to say (n small pass 1) start return 0 end\n return c%d(n minus 1) add 1\nend\n" % (i, (i + 1) % k) for i in range(k))
+        progs.append(body + "make unused get 7\nshout(c0(%d))\n" % (k + 2))
     return progs, st
 
 
